@@ -69,18 +69,6 @@ Fixpoint until_reaccept (k c : N) (l : list (N * N * bool)) (acc : list (N * N *
       else until_reaccept k c t ((k', c', f) :: acc)
   end.
 
-Fixpoint g_never_twice (l : list (N * N * bool)) : bool :=
-  match l with
-  | [] => true
-  | (k, c, f) :: t =>
-      (if f then
-         match until_reaccept k c t [] with
-         | Some between => Nat.leb 16 (distinct_keys k between [])
-         | None => true
-         end
-       else true) && g_never_twice t
-  end.
-
 Definition key_band_ok (k : N) (l : list (N * N * bool)) : bool :=
   let vs := map (fun x => snd (fst x)) (filter (fun x => fst (fst x) =? k) l) in
   match vs with
@@ -90,6 +78,23 @@ Definition key_band_ok (k : N) (l : list (N * N * bool)) : bool :=
       let mn := fold_left N.min vs v in
       mx - mn <? two31
   end.
+
+(** both clauses are about senders whose counters in the trace stay within
+    half the ring (otherwise the modular comparison legitimately lets the ring
+    wrap around and an old value become "newer" again) *)
+Fixpoint g_never_twice_from (all : list (N * N * bool)) (l : list (N * N * bool)) : bool :=
+  match l with
+  | [] => true
+  | (k, c, f) :: t =>
+      (if f && key_band_ok k all then
+         match until_reaccept k c t [] with
+         | Some between => Nat.leb 16 (distinct_keys k between [])
+         | None => true
+         end
+       else true) && g_never_twice_from all t
+  end.
+
+Definition g_never_twice (l : list (N * N * bool)) : bool := g_never_twice_from l l.
 
 (** [prev] = reversed prefix already processed *)
 Fixpoint g_newer_accepted_from (all : list (N * N * bool)) (prev l : list (N * N * bool)) : bool :=
